@@ -21,7 +21,7 @@ def model_check(chk: Check, cfgs: Iterable[str], timeout: int = 1500) -> None:
 
 
 def replay_simulated(chk: Check, cfg: str, clauses: Set[str], num: int, depth: int, seed: int,
-                     in_scope_actions: Optional[Set[str]] = None, name: Optional[str] = None,
+                     in_scope=None, name: Optional[str] = None,
                      batches: int = 1) -> Dict[str, int]:
   """Replays `num` simulated behaviours of SymTree.tla (cfg) into the real code.
 
@@ -54,7 +54,12 @@ def replay_simulated(chk: Check, cfg: str, clauses: Set[str], num: int, depth: i
         chk.count('behaviours_conforming')
         continue
       clause = d['clause']
-      if clause in clauses or clause in ('bind', 'oneplace') and ('parent' in clauses):
+      claimed = clause in clauses or (clause in ('bind', 'oneplace') and 'parent' in clauses)
+      if clause == 'hang':
+        claimed = True
+      elif claimed and in_scope is not None:
+        claimed = in_scope(d)
+      if claimed:
         sig = {'action': d['act'][0], 'clause': clause}
         chk.violation(sig, {'cfg': cfg, 'step': d['step'], 'act': d['act'], 'what': d['detail'],
                             'history': [s.state['act'] for s in beh[1:d['step'] + 1]]})
